@@ -114,6 +114,31 @@ PROPS = {
         "lemmas": ["inv/store_object", "inv/tag_object", "inv/delete_object",
                    "inv/delete_if_invalid_object", "inv/store_metadata", "inv/delete_metadata"],
         "lemma_select": [r"lemma/.*/locks-empty"],
+        "fault": True,
+        "scenario_select": [r"fault\[.*\]/.*/F1-.*"],
+    },
+    "C09": {
+        "fns": fns([F + "_write_refs_file", F + "_mktmpfile", F + "_mktmpmetadata",
+                    F + "_put_metadata", F + "_write_to_tmp_file_and_get_hex_digests",
+                    F + "_rename_path_for_deletion"], r"post/(outcome|fs)"),
+        "steps": True,
+        "scenario_select": [r"steps/.*/(S\d-.*|completes-normally)"],
+    },
+    "C10": {
+        "fns": fns([F + "_update_refs_file", F + "_rename_path_for_deletion",
+                    F + "_delete_marked_files"], r"post/(outcome|fs)"),
+        "steps": True,
+        "scenario_select": [r"steps/.*/(K1-.*|S1-.*|completes-normally)"],
+        "lemmas": ["inv/delete_object", "C03/rebind-after-delete", "C10/recover-after-crash"],
+        "lemma_select": [r"lemma/C10/.*", r"lemma/C03/rebind-after-delete/.*",
+                         r"lemma/delete_object/failure-only-for-bad-or-unknown-pid"],
+    },
+    "C13": {
+        "fns": [],
+        "fault": True,
+        "scenario_select": [r"fault\[.*\]/.*/(X\d-.*|F1-.*)"],
+        "lemmas": ["C13/unbound-pid-can-be-stored-at-once"],
+        "lemma_select": [r"lemma/C13/.*"],
     },
     "C11": {
         "fns": fns([F + "_check_arg_format_id", F + "_computehash"]) + fns(META_CORE)
@@ -160,12 +185,28 @@ PROPS = {
 }
 
 
+QUICK_FAULT = ["tag_object: first pid of the cid", "tag_object: additional pid of the cid",
+               "delete_object: sole reference", "delete_object: shared object",
+               "store_metadata: new document", "store_metadata: overwrite",
+               "delete_metadata: one format", "delete_metadata: all documents",
+               "store_object: duplicate content, additional pid"]
+
+
 def jobs_for(prop, all_fn_jobs, tier="quick"):
     spec = PROPS[prop]
     wanted = {n for n, _ in spec.get("fns", [])}
     out = [j for j in all_fn_jobs if j[1] in wanted]
     out += [("lemma", l) for l in spec.get("lemmas", [])]
     out += [("special", s, tier) for s in spec.get("special", [])]
+    if spec.get("steps"):
+        from props import scenarios
+        out += [("steps", n) for n in scenarios.SCENARIOS]
+    if spec.get("fault"):
+        from props import scenarios
+        names = list(scenarios.SCENARIOS) if tier == "thorough" else QUICK_FAULT
+        # the heaviest jobs first so that the pool finishes sooner
+        names = sorted(names, key=lambda n: (not n.startswith("store_object"), n))
+        out = [("fault", n, m) for n in names for m in ("persistent", "one-off")] + out
     return out
 
 
@@ -188,4 +229,6 @@ def selects(prop, ob):
         return any(re.fullmatch(p, name) for p in spec.get("lemma_select", []))
     if job[0] == "special":
         return True
+    if job[0] in ("steps", "fault"):
+        return any(re.fullmatch(p, name) for p in spec.get("scenario_select", []))
     return False
